@@ -229,6 +229,15 @@ impl RHistory {
                     self.deliver(src, dst, Some(i), data, genuine);
                 }
             }
+            64 => {
+                // (64 a b max): healing - the network delivers everything again; every submitted reliable message must arrive
+                let (a, bb) = match (v.get(1).and_then(parse_ep), v.get(2).and_then(parse_ep)) {
+                    (Some(x), Some(y)) => (x, y),
+                    _ => return true,
+                };
+                let max_rounds = v.get(3).and_then(|t| t.as_u64()).unwrap_or(40);
+                self.heal(a, bb, max_rounds);
+            }
             61 => {
                 let (e, ch) = match (v.get(1).and_then(parse_ep), v.get(2).and_then(|t| t.as_u64())) {
                     (Some(e), Some(ch)) => (e, ch),
@@ -648,6 +657,64 @@ impl RHistory {
             self.feat("disconnected_by_packet");
             if genuine {
                 self.check_memory_disconnect(src, dst);
+            }
+        }
+    }
+
+    fn reliable_backlog(&self, e: Ep) -> usize {
+        self.world.conn_ref(e).map(|c| c.verif_unacked().iter().map(|(_, v)| v.len()).sum()).unwrap_or(0)
+    }
+    fn got_total(&self, e: Ep) -> usize {
+        self.mons.get(&e).map(|m| m.got.values().map(|v| v.len()).sum()).unwrap_or(0)
+    }
+
+    /// C01 / C02 liveness: rounds in which every packet is delivered, ticks beyond every resend time
+    fn heal(&mut self, a: Ep, bb: Ep, max_rounds: u64) {
+        if self.world.conn_ref(a).is_none() || self.world.conn_ref(bb).is_none() {
+            self.comment("heal between endpoints that do not exist skipped");
+            return;
+        }
+        let paired = self.pairs.get(&a) == Some(&bb);
+        for _ in 0..max_rounds {
+            if self.res.panicked {
+                return;
+            }
+            let before = (self.reliable_backlog(a), self.reliable_backlog(bb), self.got_total(a), self.got_total(bb));
+            for (s, o) in [(a, bb), (bb, a)] {
+                if let Ep::Conn(_) = s {
+                    self.run_op(&l(vec![n(5u8), ep_tree(s), n(301_000_000u64)]));
+                }
+                self.run_op(&l(vec![n(62u8), ep_tree(s), ep_tree(o)]));
+                let chans: Vec<u8> = self.world.recv_cfg(o).map(|c| c.iter().map(|c| c.id).collect()).unwrap_or_default();
+                for ch in chans {
+                    self.run_op(&l(vec![n(61u8), ep_tree(o), n(ch)]));
+                }
+            }
+            let after = (self.reliable_backlog(a), self.reliable_backlog(bb), self.got_total(a), self.got_total(bb));
+            if (after.0 == 0 && after.1 == 0) || after == before {
+                break;
+            }
+        }
+        if self.res.panicked || !paired {
+            return;
+        }
+        let clean = !self.mons.get(&a).map(|m| m.hostile_in).unwrap_or(false) && !self.mons.get(&bb).map(|m| m.hostile_in).unwrap_or(false);
+        if !clean || self.is_disc(a) || self.is_disc(bb) {
+            return;
+        }
+        for (s, o) in [(a, bb), (bb, a)] {
+            // the per tick budget must allow a slice and the largest small message (C14's boundary is not a liveness failure)
+            if self.world.budget(s).unwrap_or(0) < 2500 {
+                continue;
+            }
+            let cfgs: Vec<ChanCfg> = self.world.send_cfg(s).cloned().unwrap_or_default();
+            for c in cfgs.iter().filter(|c| c.ty != 0) {
+                let nsent = self.mons.get(&s).and_then(|m| m.sent.get(&c.id)).map(|v| v.len()).unwrap_or(0);
+                let ngot = self.mons.get(&o).and_then(|m| m.got.get(&c.id)).map(|v| v.len()).unwrap_or(0);
+                self.feat("healed_channel_checked");
+                if ngot != nsent {
+                    self.violate(if c.ty == 1 { "C01" } else { "C02" }, format!("after the network healed (every packet delivered, ticks beyond resend_time, no progress left) {:?} obtained {} of the {} messages {:?} submitted on reliable channel {}", o, ngot, nsent, s, c.id));
+                }
             }
         }
     }
